@@ -123,10 +123,11 @@ def run(chk):
             return None
         return vw
 
-    def roles(b):
+    def roles(b, loop=None):
         """source names by role: (accumulator local, its name, slice parameter name, integer parameter name, shadowing slice local)"""
         heads = b.loop_heads()
-        loop = b.natural_loop(next(iter(heads))) if len(heads) == 1 else set()
+        if loop is None:
+            loop = b.natural_loop(next(iter(heads))) if len(heads) == 1 else set()
         accs, sls = [], []
         for l in range(b.argc + 1, len(b.locals)):
             if not b.lname(l) or b.lname(l) == "iter":
@@ -251,6 +252,43 @@ def run(chk):
 
     # get_crc16: crc = 0; for b in block { crc = update_crc16(crc, *b) }; crc
     b = body("crc::get_crc16")
+
+    def fold_form(b):
+        """`block.iter().fold(0, |crc, &b| update_crc16(crc, b))`: std's fold is the same left-to-right accumulation"""
+        eb = ExprBuilder(b)
+        rets = ret_exprs(b, eb)
+        if b.back_edges or len(rets) != 1:
+            return False
+        e = rets[0]
+        if not (e[0] == "call" and e[1].endswith("as std::iter::Iterator>::fold") and e[1].startswith("<std::slice::Iter<") and len(e[2]) == 3):
+            return False
+        src, init, cl = e[2]
+        if not (src[0] == "call" and src[1] == "core::slice::<impl [T]>::iter" and len(src[2]) == 1):
+            return False
+        x = src[2][0]
+        while x[0] in ("ref", "deref"):
+            x = x[1]
+        if not (x[0] == "var" and 1 <= x[1] <= b.argc and b.tys(x[1]) == "&[u8]") or init != ("const", 0):
+            return False
+        if not (cl[0] == "agg" and str(cl[1]).startswith("closure:") and not cl[2]):
+            return False
+        cb = f.bodies.get(str(cl[1])[len("closure:"):])
+        if cb is None or cb.back_edges or cb.argc != 3:
+            return False
+        ceb = ExprBuilder(cb)
+        cr = ret_exprs(cb, ceb)
+        if len(cr) != 1:
+            return False
+        c = cr[0]
+        ok = c[0] == "call" and c[1] == "crc::update_crc16" and len(c[2]) == 2 and c[2][0][0] == "var" and c[2][0][1] == 2
+        y = c[2][1] if ok else None
+        while ok and y[0] in ("deref", "ref"):
+            y = y[1]
+        return bool(ok and y[0] == "var" and y[1] == 3)
+    if b and not b.back_edges and fold_form(b):
+        chk.obligation(True, 6)
+        chk.sample("get_crc16 = block.iter().fold(0, update_crc16)")
+        b = None
     if b:
         R16 = roles(b)
 
@@ -263,7 +301,8 @@ def run(chk):
         fold_loop("get_crc16", b, R16[1], lambda e: e == ("const", 0), step16, R16[2],
                   lambda e: e[0] == "var" and e[1] == R16[0])
     # update_slow: crc = !prev; for byte in buf { crc = T0[(crc as u8) ^ byte] ^ (crc >> 8) }; !crc
-    b = body("crc::update_slow")
+    b = f.bodies.get("crc::update_slow")
+    slow_inlined = b is None            # then get_crc32 must contain the tail loop itself (checked below)
     if b:
         RS = roles(b)
 
@@ -281,15 +320,31 @@ def run(chk):
     b = body("crc::get_crc32")
     if b:
         eb = ExprBuilder(b)
-        heads = b.loop_heads()
+        heads = sorted(b.loop_heads())
+        tail_loop = set()
+        tail_head = None
+        if slow_inlined and len(heads) == 2:
+            # the byte-wise tail written out after the 16-byte loop instead of a call of update_slow
+            h1, h2 = heads
+            if b.dominates(h2, h1):
+                h1, h2 = h2, h1
+            if b.dominates(h1, h2) and h2 not in b.natural_loop(h1):
+                heads = [h1]
+                tail_head = h2
+                tail_loop = b.natural_loop(h2)
+        if not slow_inlined or tail_head is not None:
+            pass
+        else:
+            chk.anchor(False, "R-CRC-SHAPE", "anchor missing: fn crc::update_slow (and no byte-wise tail loop in get_crc32)")
         if chk.anchor(len(heads) == 1, "R-CRC-SHAPE", "get_crc32: exactly one loop"):
             head = next(iter(heads))
             loop = b.natural_loop(head)
-            R32 = roles(b)
+            R32 = roles(b, loop)
             ACC, BUFP = R32[1], R32[2]
             rds = defs_of(b, eb, ACC)
-            inits = [e for bi, e in rds if bi not in loop]
+            inits = [e for bi, e in rds if bi not in loop and bi not in tail_loop]
             steps = [e for bi, e in rds if bi in loop]
+            tail_steps = [e for bi, e in rds if bi in tail_loop]
             ok = len(inits) == 1 and inits[0] == ("const", 0xFFFFFFFF)
             chk.obligation(ok)
             if not ok:
@@ -432,10 +487,39 @@ def run(chk):
                 else:
                     rest = a1[0] == "var" and a1[1] in bufl
                 return a0[0] == "un" and a0[1] == "Not" and a0[2][0] == "var" and a0[2][1] == R32[0] and rest
-            ok = len(rets) == 1 and is_tail(rets[0])
-            chk.obligation(ok)
+            def inline_tail():
+                """for byte in <remaining window> { result = T0[(result as u8) ^ byte] ^ (result >> 8) }; !result"""
+                if tail_head is None or len(tail_steps) != 1 or len(rets) != 1:
+                    return False
+                r = rets[0]
+                if not (r[0] == "un" and r[1] == "Not" and r[2][0] == "var" and r[2][1] == R32[0]):
+                    return False
+                its = [(bi, e) for bi, e in defs_of(b, eb, "iter") if bi not in loop and bi not in tail_loop and b.dominates(head, bi)]
+                if len(its) != 1 or its[0][1][0] != "call" or not its[0][1][1].endswith("::into_iter"):
+                    return False
+                srcw = its[0][1][2][0]
+                while srcw[0] in ("ref", "deref"):
+                    srcw = srcw[1]
+                if binit is None:
+                    rest = srcw[0] == "call" and srcw[1].endswith("ChunksExact::<'a, T>::remainder")
+                else:
+                    rest = srcw[0] == "var" and srcw[1] in bufl
+                nexts = [i for i, t in b.calls() if i in tail_loop and t["callee"].get("resolved") == SLICE_NEXT]
+                exits_t = [(x, s_) for x in tail_loop for s_ in b.succ[x] if s_ not in tail_loop and b.blocks[s_]["term"]["k"] != "unreachable"]
+                shape = rest and len(nexts) == 1 and len(exits_t) == 1 and b.blocks[exits_t[0][0]]["term"]["k"] == "switch" \
+                    and show(eb.operand(b.blocks[exits_t[0][0]]["term"]["discr"])).startswith("discr(next(")
+                if not shape:
+                    return False
+                nzt = gf2.Normalizer(widths(b, (R32[0],), acc_name="crc"), tables, elem_input({"iter"}))
+                if upd32_ok[0]:
+                    nzt.helpers["crc::update_crc32"] = ((32, 8), lambda c_, b_: gf2.xor(gf2.shr(c_, 8), gf2.lookup(T32, 0, gf2.resize(gf2.xor(gf2.resize(c_, 8), b_), 64), 32)))
+                got = nzt.nf(tail_steps[0], 32)
+                return got is not None and got == upd32(gf2.var_bits("elem", 8))
+            ok = (len(rets) == 1 and is_tail(rets[0])) if not slow_inlined else inline_tail()
+            chk.obligation(ok, 1 if not slow_inlined else 8)
             if not ok:
-                mismatch("get_crc32", "tail must be update_slow(!result, remaining bytes)", got=str([show(e) for e in rets]))
+                mismatch("get_crc32", "tail must be update_slow(!result, remaining bytes)" if not slow_inlined else
+                         "the byte-wise tail must fold the remaining bytes through T0[(result as u8) ^ byte] ^ (result >> 8) and return !result", got=str([show(e) for e in rets]))
     chk.cov["exhaustive"] = True
     chk.cov["table_entries_checked"] = nent
     chk.cov["routines_checked"] = ["update_crc16", "get_crc16", "update_crc32", "update_slow", "get_crc32"]
